@@ -169,6 +169,12 @@ Definition read_gen (esc : bool) (s : rstate) (n : N) : N * rstate :=
 Definition read := read_gen true.
 Definition read_plain := read_gen false.
 
+(* func (r *Reader) ReadSigned(n int) int: two's complement, n >= 1 (n = 0 would be a negative
+   shift count, a run-time panic in Go; outside the modelled domain) *)
+Definition read_signed_plain (s : rstate) (n : N) : Z * rstate :=
+  let '(v, s') := read_plain s n in
+  (if N.testbit v (n - 1) then (Z.of_N v - 2 ^ Z.of_N n)%Z else Z.of_N v, s').
+
 Definition read_flag (s : rstate) : bool * rstate :=
   let '(v, s') := read s 1 in (v =? 1, s').
 
